@@ -7,7 +7,7 @@ from ..common import Report, main_wrapper, scratch
 from ..edgecheck import collect_edges, decide_edges
 from .args import parse
 
-MODULES = ["harness.corpus.replace"]
+MODULES = ["harness.corpus.replace", "harness.corpus.replacegen"]
 
 
 def main():
